@@ -319,12 +319,14 @@ theorem takePending_rest (a : Agent) (now tid : Nat) :
   split <;> rfl
 
 /-- Deferred renomination: when the check of a pair carrying a deferred valued nomination `v` succeeds on a
-controlled agent (transaction pending and symmetric), the pair becomes the selected pair iff no greater value
+controlled agent (transaction pending and symmetric: same network type, response from the request's
+destination, arriving on the request's source address), the pair becomes the selected pair iff no greater value
 has been accepted since (`lastNomination = some last` with `last ≤ v`); otherwise the selection stays.
 Priorities play no part. -/
 theorem handleSuccess_deferred (a : Agent) (now : Nat) (m : Msg) (l r : Cand) (src : Nat)
     (hctl : a.controlling = false) {a' : Agent} {pd : Pending} {p : Pair} {v : Nat}
     (htp : a.takePending now m.tid = (a', some pd)) (hnet : pd.net = l.net) (hdest : pd.dest = src)
+    (hsrc : pd.src = l.addr)
     (hfp : a.findPair l r = some p) (hnos : p.nomOnSuccess = true) (hdn : p.deferredNom = some v) :
     (a.handleSuccess now m l r src).1.selected =
       match a.lastNomination with
@@ -338,7 +340,7 @@ theorem handleSuccess_deferred (a : Agent) (now : Nat) (m : Msg) (l r : Cand) (s
   have hl' : a'.lastNomination = a.lastNomination := by rw [hrest]
   have hs' : a'.selected = a.selected := by rw [hrest]
   unfold Agent.handleSuccess
-  simp only [htp, hnet, hdest, hfp', beq_self_eq_true, Bool.and_self, Bool.not_true, Bool.false_eq_true, if_false]
+  simp only [htp, hnet, hdest, hsrc, hfp', beq_self_eq_true, Bool.and_self, Bool.not_true, Bool.false_eq_true, if_false]
   simp only [Agent.modPair, hc', hnos, hdn, if_true, hl', Bool.false_eq_true, if_false]
   cases hln : a.lastNomination with
   | none => simp [hs']
